@@ -3,7 +3,7 @@ bounds version, parameter version) as real optyx models.  Several spellings per 
 import numpy as np
 
 BOUNDS = {0: (10.0, 10.0), 1: (2.0, 1.5)}      # upper bounds of (x, y) per bounds version
-PARAM = {0: 0.5, 1: 2.0}
+PARAM = {0: 1.0, 1: 2.0}      # 1.0: the value algebraic simplifiers special-case
 
 
 class World:
